@@ -17,8 +17,8 @@
      fileData.Name(); parent mutex released by defer; RemoveAll, Chmod, Chtimes: one write-locked
      section with a deferred unlock; Mkdir: no setFileMode) plus the C04 repair of OpenFile and
      Readdirnames: OpenFile takes mu itself (write-locked with O_CREATE, read-locked otherwise,
-     released by defer) and finishes the handle (O_APPEND seek, O_TRUNC truncate: transient file
-     mutexes) inside that section; Readdirnames takes the base names in the directory's locked
+     released by defer) and finishes the handle (O_APPEND seek, O_TRUNC truncate: ONE transient
+     hold of the file's mutex, mem.File.PrepareOpen) inside that section; Readdirnames takes the base names in the directory's locked
      section (File.readdirFiles, shared with Readdir) and no longer calls FileInfo.Name() per entry.
      RemoveAll as it was before commit ce143d9 is kept behind [cf_legacy] (the ARa sections): there
      Go's map iteration order is one legal order — the keys present when the loop starts, in
@@ -179,8 +179,9 @@ Definition cc_perm (o : op) : Z :=
 Definition cc_flag (o : op) : Z := match o with OpenFile _ f _ => f | _ => 0 end.
 
 (* OpenFile, inside its locked section once the handle h on node x exists: the O_APPEND seek
-   (mem.File.Seek: offset := length) and then the O_TRUNC truncate (mem.File.Truncate(0)), each
-   under the file's mutex *)
+   (offset := length) and then the O_TRUNC truncate (data := empty, time stamp), both under ONE
+   hold of the file's mutex (mem.File.PrepareOpen; before that repair OpenFile called
+   mem.File.Seek and mem.File.Truncate, two holds of that mutex inside the same section of mu) *)
 Definition cc_of_wants_finish (flag : Z) : bool :=
   flag_has flag o_append || (flag_has flag o_trunc && flag_has flag (Z.lor o_rdwr o_wronly)).
 Definition cc_of_finish (s : mst) (x h : nat) (flag : Z) : mst :=
@@ -304,7 +305,7 @@ Definition cc_sem (a : cc_aid) (f : cc_frame) (s0 : mst) : cc_out :=
       let t := match o with Chtimes _ t => t | _ => 0 end in
       let '(s1, r) := m_chtimes s name t in CcCont s1 (fr_set_res f r) []
   | AOfLookupT =>
-      (* without O_CREATE, mu read-locked: Seek / Truncate take the mutex of the file found *)
+      (* without O_CREATE, mu read-locked: PrepareOpen takes the mutex of the file found *)
       CcCont s f (cc_touches (if cc_of_wants_finish (cc_flag o) then cc_node_at s name else []) ++ [CcAct AOfLookup])
   | AOfLookup =>
       let flag := cc_flag o in
@@ -806,7 +807,7 @@ Definition cc_acc (a : cc_aid) : list cc_access :=
   | ACreateT | AMkdirCreateT | AOfCreateT | AOfLookupT | ARemoveT | ARenameT | ARaUnregT | ARemoveAllT | AChmodT | AChtT => []
   | ACreate => [rd FMap; wr FMap; rdo FDirFlag; wro FData; wro FMtime] ++ acc_register
   | AOfCreate => [rd FMap; wr FMap; rdo FData; wro FData; wro FMtime] ++ acc_register
-  | AOfLookup => [rd FMap; rdo FData; wro FData; wro FMtime]      (* Seek reads the length, Truncate writes *)
+  | AOfLookup => [rd FMap; rdo FData; wro FData; wro FMtime]      (* PrepareOpen reads the length, then empties the file *)
   | AMkdirCheck | AOpen | AStatLookup => [rd FMap]
   | AMkdirCreate => [rd FMap; wr FMap] ++ acc_register
   | AStatRead => [rdo FName; rdo FMode; rdo FMtime; rdo FDirFlag; rdo FData]
@@ -934,7 +935,7 @@ Definition cc_locktab : list (string * string) := [
   ("MemMapFs.Mkdir", "mu.RLock mu.RUnlock if{ ret } mu.Lock if{ mu.Unlock ret } call:lockfreeBelowFile if{ mu.Unlock ret } call:SetMode call:registerWithParent mu.Unlock ret");
   ("MemMapFs.MkdirAll", "call:Mkdir if{ if{ ret } ret } ret");
   ("MemMapFs.Open", "call:open if{ ret } ret");
-  ("MemMapFs.OpenFile", "if{ mu.Lock defer:mu.Unlock call:lockfreeOpenOrCreate } else{ mu.RLock defer:mu.RUnlock } if{ ret } if{ call:Seek if{ call:Close ret } } if{ call:Truncate if{ call:Close ret } } ret");
+  ("MemMapFs.OpenFile", "if{ mu.Lock defer:mu.Unlock call:lockfreeOpenOrCreate } else{ mu.RLock defer:mu.RUnlock } if{ ret } if{ call:PrepareOpen if{ call:Close ret } } ret");
   ("MemMapFs.Remove", "mu.Lock defer:mu.Unlock if{ call:unRegisterWithParent if{ ret } } else{ ret } ret");
   ("MemMapFs.RemoveAll", "mu.Lock defer:mu.Unlock call:unRegisterWithParent ret");
   ("MemMapFs.Rename", "mu.Lock defer:mu.Unlock if{ if{ ret } call:lockfreeBelowFile if{ ret } if{ pOld.Lock defer:pOld.Unlock } if{ pNew.Lock defer:pNew.Unlock } call:unRegisterWithParent if{ ret } call:ChangeFileName call:renameDescendants if{ ret } call:registerWithParent } else{ call:IsDir call:lockfreeBelowFile if{ ret } ret } ret");
@@ -954,6 +955,7 @@ Definition cc_locktab : list (string * string) := [
   ("mem.File.Close", "f.fileData.Lock if{ f.fileData.Unlock ret } f.fileData.Unlock ret");
   ("mem.File.Name", "call:Name ret");
   ("mem.File.Open", "f.fileData.Lock f.fileData.Unlock ret");
+  ("mem.File.PrepareOpen", "f.fileData.Lock defer:f.fileData.Unlock if{ ret } if{ ret } ret");
   ("mem.File.Read", "f.fileData.Lock defer:f.fileData.Unlock if{ ret } if{ ret } if{ ret } ret");
   ("mem.File.ReadAt", "if{ call:Name ret } call:Read ret");
   ("mem.File.ReadDir", "call:Readdir if{ ret } ret");
